@@ -16,6 +16,10 @@ use serde::{Deserialize, Serialize};
 pub const NAMES: [&str; 10] = ["a", "b", "c", "user", "x1", "count", "item_name", "größe", "n", "val"];
 pub const FLAGS: [&str; 12] = [">3", "<3", "^7", ">08.2", "+", ".3", ">03", "?", "08", "-<6", ".0", "#?"];
 
+/// Keywords that can be written as raw identifiers (`r#type`); the property key and the hole label are the
+/// UNRAWED name (`type`). `self`, `Self`, `crate`, `super` cannot be raw identifiers.
+pub const KEYWORDS: [&str; 14] = ["type", "fn", "match", "loop", "as", "in", "ref", "struct", "mod", "use", "where", "move", "impl", "enum"];
+
 /// Fill characters of generated format specs: the default, plus every character that also has a meaning
 /// somewhere else in the spec grammar (a sloppy flags parser could trip over them), plus plain and
 /// non-ASCII ones. `{` and `}` are left out: they cannot be spelled in the attribute string without
@@ -119,6 +123,10 @@ pub struct HoleSpec {
     /// a structured spec; takes precedence over `flags`
     #[serde(default)]
     pub spec: Option<FlagSpec>,
+    /// the hole is written with a raw identifier (`{r#type}` / `{r#type: expr}`); only for places Inline and
+    /// Local (a raw-identifier hole that is also defined by a trailing pair is rejected by the macros)
+    #[serde(default)]
+    pub raw: bool,
 }
 
 impl HoleSpec {
@@ -213,8 +221,12 @@ fn std_spec(flags: Option<&str>, debug: bool) -> String {
 }
 
 pub struct Resolved {
-    /// (hole name, spec) per hole in order; extras after
+    /// the LABEL (= property key) of every hole in order: the identifier, unrawed
     pub hole_names: Vec<&'static str>,
+    /// the identifier as written in the source (`r#type` for raw holes)
+    pub hole_idents: Vec<String>,
+    /// the name of the corresponding argument in the equivalent `std::format!` call
+    pub hole_std: Vec<String>,
     pub extra_names: Vec<&'static str>,
 }
 
@@ -224,10 +236,14 @@ impl Site {
     }
 
     pub fn resolve(&self) -> Resolved {
-        let n_holes = self.holes().len();
+        let holes = self.holes();
+        let n_holes = holes.len();
         let name = |i: usize| NAMES[(self.name_rot as usize + i) % NAMES.len()];
+        let label = |i: usize| if holes[i].raw { KEYWORDS[(self.name_rot as usize + i) % KEYWORDS.len()] } else { name(i) };
         Resolved {
-            hole_names: (0..n_holes).map(name).collect(),
+            hole_names: (0..n_holes).map(label).collect(),
+            hole_idents: (0..n_holes).map(|i| if holes[i].raw { format!("r#{}", label(i)) } else { label(i).to_string() }).collect(),
+            hole_std: (0..n_holes).map(|i| if holes[i].raw { format!("kw_{}", label(i)) } else { label(i).to_string() }).collect(),
             extra_names: (n_holes..n_holes + self.extras.len()).map(name).collect(),
         }
     }
@@ -253,6 +269,7 @@ impl Site {
                 }
                 _ => true,
             }
+            && holes.iter().all(|h| !h.raw || matches!(h.place, Place::Inline | Place::Local))
             && holes.iter().all(|h| match (&h.value, h.place) {
                 // inline strings live inside the literal's source: keep them free of quotes, backslashes, braces, controls
                 (VSpec::Str(s) | VSpec::OwnedString(s), Place::Inline) => s.chars().all(|c| !matches!(c, '"' | '\\' | '{' | '}' | '\n' | '\t')),
@@ -305,7 +322,7 @@ pub fn site_source(id: u32, site: &Site) -> String {
     // locals
     for (i, h) in holes.iter().enumerate() {
         if site.kind != SiteKind::Tpl && matches!(h.place, Place::Local | Place::ExtraLocal) {
-            let _ = writeln!(src, "    let {} = {};", r.hole_names[i], h.value.expr());
+            let _ = writeln!(src, "    let {} = {};", r.hole_idents[i], h.value.expr());
         }
     }
     // `evt!` borrows its property values for as long as the event lives: non-constant expressions
@@ -336,7 +353,8 @@ pub fn site_source(id: u32, site: &Site) -> String {
                 std_lit_alt.push_str(&braces(&escape_body(t, site.escape_controls)));
             }
             SegSpec::Hole(h) => {
-                let name = r.hole_names[hi];
+                let name = r.hole_idents[hi].as_str();
+                let std_name = r.hole_std[hi].as_str();
                 hi += 1;
                 let flags_owned = h.flags_text();
                 let flags = flags_owned.as_deref();
@@ -368,9 +386,9 @@ pub fn site_source(id: u32, site: &Site) -> String {
                     }
                 }
                 let spec = std_spec(flags, debug);
-                let _ = write!(std_lit, "{{{name}{spec}}}");
-                let _ = write!(std_lit_alt, "{{{name}{spec}}}");
-                std_args.push(format!("{name} = {}", h.value.expr()));
+                let _ = write!(std_lit, "{{{std_name}{spec}}}");
+                let _ = write!(std_lit_alt, "{{{std_name}{spec}}}");
+                std_args.push(format!("{std_name} = {}", h.value.expr()));
             }
         }
     }
